@@ -320,4 +320,52 @@ theorem rr_same (runs : List Run) (h : List Exch) (hruns : runs ≠ []) (hsame :
         rw [h1, this]
 
 
+/-- `rr` by index: started in front of `runs.drop j`, pass `p` is served from recording `(j + p) mod k` -/
+theorem rr_drop_index (runs : List Run) (hne : runs ≠ []) (m j p : Nat) (hj : j ≤ runs.length) :
+    (rr runs (runs.drop j) m)[p]? = if p < m then (runs[(j + p) % runs.length]?).map (·.2) else none := by
+  have hk : 0 < runs.length := List.length_pos_iff.2 hne
+  induction m generalizing j p with
+  | zero => cases h : runs.drop j <;> simp [rr]
+  | succ m ih =>
+    cases hd : runs.drop j with
+    | cons r rest =>
+      have hjlt : j < runs.length := by
+        rcases Nat.lt_or_ge j runs.length with h | h
+        · exact h
+        · have : runs.drop j = [] := List.drop_eq_nil_of_le h
+          rw [this] at hd; cases hd
+      have hr : runs[j]? = some r := by
+        have := List.getElem?_drop (xs := runs) (i := j) (j := 0)
+        rw [hd] at this; simpa using this.symm
+      have hrest : rest = runs.drop (j + 1) := by
+        have := List.drop_drop (l := runs) (i := 1) (j := j)
+        rw [hd] at this; simpa using this
+      simp only [rr]
+      cases p with
+      | zero => simp [Nat.mod_eq_of_lt hjlt, hr]
+      | succ p =>
+        rw [List.getElem?_cons_succ, hrest, ih (j + 1) p (by omega)]
+        have : j + 1 + p = j + (p + 1) := by omega
+        simp [this]
+    | nil =>
+      have hjk : j = runs.length := by
+        have := List.drop_eq_nil_iff.1 hd; omega
+      cases hr : runs with
+      | nil => exact absurd hr hne
+      | cons r rest =>
+        simp only [rr]
+        subst hjk
+        cases p with
+        | zero => simp [hr]
+        | succ p =>
+          have hrest : rest = runs.drop 1 := by rw [hr]; rfl
+          rw [List.getElem?_cons_succ]
+          have h1 := ih 1 p (by omega)
+          rw [← hrest] at h1
+          rw [← hr, h1]
+          have : (runs.length + (p + 1)) % runs.length = (1 + p) % runs.length := by
+            rw [Nat.add_mod_left]; congr 1; omega
+          simp [this]
+
+
 end Gallia.Replay
